@@ -102,7 +102,19 @@ func (c *RunnerCloserManager) Add(runner ...Runner) error {
 		return ErrManagerAlreadyStarted
 	}
 
-	return c.mngr.Add(runner...)
+	c.mngr.lock.Lock()
+	defer c.mngr.lock.Unlock()
+
+	// Check again under the lock: Run decides under the same lock whether the
+	// runner that watches Close() is needed, so a runner is either seen by that
+	// decision or rejected.
+	if c.running.Load() {
+		return ErrManagerAlreadyStarted
+	}
+
+	c.mngr.runners = append(c.mngr.runners, runner...)
+
+	return nil
 }
 
 // AddCloser adds a closer to the list of closers to be closed once the main
@@ -159,8 +171,10 @@ func (c *RunnerCloserManager) Run(ctx context.Context) error {
 
 	// If the main runner has at least one runner, add a closer that will
 	// close the context once Close() is called.
+	// The lock makes this decision atomic with respect to Add().
+	c.mngr.lock.Lock()
 	if len(c.mngr.runners) > 0 {
-		c.mngr.Add(func(ctx context.Context) error {
+		c.mngr.runners = append(c.mngr.runners, func(ctx context.Context) error {
 			select {
 			case <-ctx.Done():
 			case <-c.closeCh:
@@ -168,6 +182,7 @@ func (c *RunnerCloserManager) Run(ctx context.Context) error {
 			return nil
 		})
 	}
+	c.mngr.lock.Unlock()
 
 	errCh := make(chan error, len(c.closers))
 	go func() {
